@@ -15,14 +15,14 @@ ASSUMPTIONS = ['clingo calls print_model once per answer set after the model cal
                'clingo\'s symbol order (sorted) is treated as an arbitrary permutation in the theorems']
 REPO = os.environ.get('TELINGO_REPO', '/repo')
 SHOWS = ['#show a/0.', '#show b/0.', '#show p/1.', '#show -p/1.', '#show q/2.', '#show c.', '#show foo(a) : a.', '#show bar : b.', '#show (a,1) : a.', '#show 7 : a.', '#show "s" : b.',
-         '#show g(X) : p(X).', '#show -a/0.', '#show.', '#show k(1,2).', '#show h(1) : b.']
+         '#show g(X) : p(X).', '#show -a/0.', '#show.', '#show k(1,2).', '#show h(1) : b.', '#show t/5.', '#show -t/2.', '#show ("s",-1,(2,)) : a.']
 
 
 def program(rng):
     atoms = ['a', 'b']
     rules = gen.core_program(rng, atoms, (1, 3), future_head=0.2)
     txt = lang.prog_txt(rules)
-    extra = ['#program always.', '{ p(1); p(2) }.', '-p(X) :- not p(X), X = 1..2.', "q(X,Y) :- p(X), 'p(Y).", '-a :- not a, b.']
+    extra = ['#program always.', '{ p(1); p(2) }.', '-p(X) :- not p(X), X = 1..2.', "q(X,Y) :- p(X), 'p(Y).", '-a :- not a, b.', 't("x\\"y",(1,2),-3,f(-a,""),(4,)) :- a.', '-t((),"") :- b.']
     txt += '\n'.join(rng.sample(extra[1:], rng.randint(0, 3)) and [extra[0]] + rng.sample(extra[1:], rng.randint(1, 3))) + '\n'
     shows = rng.sample(SHOWS, rng.choice([0, 1, 2, 3, 4]))
     txt += '\n'.join(shows) + '\n'
